@@ -145,6 +145,9 @@ def t5_duplicates() -> Iterator[Dict[str, Any]]:
     yield project([mod("m", ops=flat(fn("f"), fn("f"), fn("f")))], "T5", shape="triple")
     yield project([mod("m", ops=flat(cls("C", body=flat(cls("I", body=[fn("f")]), cls("I")))))], "T5", shape="nested-class-dup")
     yield project([mod("m", ops=flat(var("x"), fn("x"), cls("x")))], "T5", shape="var-func-class")
+    # a class re-exported onto the name of the module that defines it, and a function named like its method
+    yield project([mod("rc", pkg=True, ops=[frm("rc", "rc", lvl=1), frm("rc", "rf", lvl=1)], all=["rc", "rf"]),
+                   mod("rc", 1, ops=flat(cls("rc", body=[fn("rf")]), fn("rf")))], "T5", shape="move-onto-own-module-name")
     yield project([mod("m", ops=flat(cls("Outer", body=flat(cls("Inner", body=[fn("f"), fn("f")]), cls("Inner"))), cls("Outer")))],
                   "T5", shape="dup-in-dup-then-dup-outer")
     yield project([mod("p", pkg=True, ops=[frm("_impl", "Outer", lvl=1)], all=["Outer"]),
